@@ -226,12 +226,12 @@ impl Merge for Covariance {
         let len_total = len_self + len_other;
 
         self.avg_x = (len_self * self.avg_x + len_other * other.avg_x) / len_total;
-        self.sum_x_2 += other.sum_x_2 + delta_x*delta_x * len_self * len_other / len_total;
+        self.sum_x_2 += other.sum_x_2 + delta_x*delta_x * (len_self * len_other / len_total);
 
         self.avg_y = (len_self * self.avg_y + len_other * other.avg_y) / len_total;
-        self.sum_y_2 += other.sum_y_2 + delta_y*delta_y * len_self * len_other / len_total;
+        self.sum_y_2 += other.sum_y_2 + delta_y*delta_y * (len_self * len_other / len_total);
 
-        self.sum_prod += other.sum_prod + delta_x*delta_y * len_self * len_other / len_total;
+        self.sum_prod += other.sum_prod + delta_x*delta_y * (len_self * len_other / len_total);
 
         self.n += other.n;
     }
